@@ -36,7 +36,7 @@ CLAIMED = {
  "C16": ("spec/MC_Audio.tla (edit mode) + spec/AudioImpl.tla + spec/AudioProp.tla + spec/Trace_Audio.tla", "5 (C16)",
          "TLC explores the audio state machine (recordings as sequences of distinct sample ids, every time on the quarter-sample grid, edit "
          "histories) checking the transcription of Wav's slice arithmetic against the list-of-samples relations; every transition is replayed on "
-         "real Wav objects for several (rate, width), plus random recordings, live edit histories, bytes/save/open/QueryWav round trips."),
+         "real Wav objects for several (rate, width), plus random recordings (also 60-400 samples at rates where rate*(k/rate) < k), live edit histories, query histories on one QueryWav, bytes/save/open round trips."),
  "C17": ("spec/MC_Audio.tla (read mode) + spec/AudioImpl.tla (invertIntervalList, readFramesAtTimes) + spec/AudioProp.tla", "5 (C17)",
          "TLC enumerates every keep/delete interval list on the quarter-sample grid x replacement and checks the transcription against the "
          "kept-stretches relation; the cases are replayed on real wave files; generators, extractSubwav and splitAudioOnTier (files, cropped "
@@ -47,7 +47,7 @@ CLAIMED = {
          "under a hang guard; tgBoundariesToZeroCrossings and audioSplice are judged on random textgrids."),
  "C19": ("spec/MC_Klatt.tla (KlattMachine) + spec/KlattProp.tla + spec/Trace_Klatt.tla", "5 (C19)",
          "TLC explores every save/open/modifySubtiers/modifyValues behaviour of the KlattMachine (values as provenance terms) to the depth bound; "
-         "every behaviour is replayed on synthetic KlattGrids (1-5 formants, 0-3 points) and on the reference KlattGrid with concrete functions; "
+         "every behaviour is replayed on synthetic KlattGrids (1-12 formants, 0-3 points) and on the reference KlattGrid with concrete functions; "
          "TLC compares every leaf tier's span, times and values as ranks of bit patterns; point objects are saved/opened and their long and short "
          "encodings (Praat layout, compact, with/without final newline) opened and compared."),
  "C20": ("spec/MC_Series.tla (transcription of _stepFilter) + spec/SeriesProp.tla", "5 (C20)",
@@ -57,7 +57,7 @@ CLAIMED = {
          "This is the property where TLA+ contributes least (pure numeric functions)."),
  "C05": ("spec/MC_Tier.tla + spec/TierProp.tla (WFClauses) + spec/Trace_Tier.tla", "5 (C05)",
          "TLC checks RecvWF/NoFail on the tier state machine for all 16 operations from every well-formed start state; every "
-         "transition, random millisecond-grid vectors and random live histories (<= 12 steps, exact dyadic arithmetic) are executed on "
+         "transition, random millisecond-grid vectors and random live histories (<= 12 steps, exact dyadic arithmetic; plus decimal-grid histories with accumulating rounding noise, judged by the float-level clauses only) are executed on "
          "the real code and each step's returned tier and receiver are judged well-formed (on projected integers by TLC, and on the raw "
          "floats + validate() agreement by the harness)."),
  "C06": ("spec/MC_Tier.tla (DoCrop) + TierProp.CropClauses", "5 (C06)",
@@ -114,6 +114,10 @@ def main():
         "engines": [
             {"name": "TLC 1.8 (tla2tools.jar)", "path": "/opt/veriftools/tla/tla2tools.jar",
              "serves_properties": sorted(CLAIMED), "kind_free_text": "explicit-state model checker for the TLA+ modules in /verif/spec; also evaluates the trace specifications"},
+            {"name": "Apalache 0.58", "path": "/opt/veriftools/apalache", "serves_properties": ["C12"],
+             "kind_free_text": "symbolic checker: inductive invariant spec/apalache/TgMapInd.tla (names unique under unbounded histories of the list model); run inside ./check C12, recorded in the evidence notes"},
+            {"name": "specification growth (not claimed properties)", "path": "/verif/tools/extras.sh", "serves_properties": [],
+             "kind_free_text": "./check X01 X02 X03 X04 X10 X11 (DESIGN section 17): splitTierEntries, spellCheckEntries, znormWindowFilter, findAll (PlusCal, liveness), and refinement replay of TierImpl / TgImpl (the real step equals the Impl action)"},
             {"name": "harness", "path": "/verif/harness", "serves_properties": sorted(CLAIMED),
              "kind_free_text": "Python drivers: concretize TLC-emitted transitions, execute them on praatio from /repo, project results, hand NDJSON traces to TLC"},
         ],
